@@ -216,6 +216,32 @@ pub fn pair_event(data: &[u8], sh: bool, sched: &[Resp]) -> J {
     json!({"op": "pair", "sh": sh, "stream": proj::bytes(data), "sched": sched_json(sched), "blog": bl, "alog": al, "bm": bm, "am": am})
 }
 
+/// streams built around special shapes: a message whose own header spells a storage / serial pattern; a stored message whose
+/// storage header lacks the magic while its payload embeds a complete stored message followed by more bytes
+pub fn special_stream(r: &mut Rng, sh: bool) -> Vec<u8> {
+    let small = |r: &mut Rng| gen::message(r, &MsgOpts { storage: Some(sh), big: 8, max_args: 2 }).as_bytes();
+    let mut data = small(r);
+    if r.coin() || !sh {
+        // HTYP 0x44, MCNT 0x4C, LEN 0x5401 ("DLT\x01") or 0x5301 ("DLS\x01")
+        let len = if r.coin() { 0x5401usize } else { 0x5301 };
+        if sh { data.extend(b"DLT\x01\0\0\0\0\0\0\0\0ECU\0"); }
+        data.extend([0x44u8, 0x4C, (len >> 8) as u8, len as u8]);
+        data.extend(b"ECU1");
+        data.extend(r.bytes(len - 8));
+    } else {
+        let inner = small(r);
+        let tail = 1 + r.below(5) as usize;
+        let plen = 4 + inner.len() + tail;
+        data.extend(b"DLT\x00\0\0\0\0\0\0\0\0ECU\0");          // no magic
+        data.extend([0x20u8, 1, ((4 + plen) >> 8) as u8, (4 + plen) as u8]);
+        data.extend([9, 9, 9, 9]);
+        data.extend(&inner);
+        data.extend(r.bytes(tail));
+    }
+    data.extend(small(r));
+    data.extend(small(r));
+    data
+}
 pub fn random_stream(r: &mut Rng, sh: bool) -> Vec<u8> {
     let mut data = vec![];
     for _ in 0..r.below(4) {
@@ -264,7 +290,7 @@ pub fn record(mode: &str, seed: u64, n: usize, out: &mut Out) {
         "blocking" | "async" => {
             for i in 0..n {
                 let sh = r.coin();
-                let data = random_stream(&mut r, sh);
+                let data = if i % 40 == 13 { special_stream(&mut r, sh) } else { random_stream(&mut r, sh) };
                 let sched = random_sched(&mut r);
                 let cfg = if i % 3 == 0 { Some(slice::random_filter(&mut r, None)) } else { None };
                 // the largest message any header position of this stream could declare: small capacities are only legitimate above it
@@ -295,9 +321,9 @@ pub fn record(mode: &str, seed: u64, n: usize, out: &mut Out) {
         }
         // C08: both readers on the same bytes and schedule
         "pair" => {
-            for _ in 0..n {
+            for i in 0..n {
                 let sh = r.coin();
-                let data = random_stream(&mut r, sh);
+                let data = if i % 40 == 13 { special_stream(&mut r, sh) } else { random_stream(&mut r, sh) };
                 let sched = random_sched(&mut r);
                 out.calls += 4;
                 out.emit(pair_event(&data, sh, &sched), data.len() > 8);
